@@ -305,7 +305,7 @@ def c14_body(res, thorough):
                       "a lazily initialised child bucket sees every key of its range, growth changes no result; the split-order facts it needs are the C27 theorems (C14_cfg64_hyp instantiates them for the real 64-bit key functions); "
                       "tied by trace conformance (hidden variant isset_michael_hp_named, three hash modes incl. a hash of SIZE_MAX)","locality (Base/Locality, Herlihy-Wing Theorem 1 proved for the framework's definition) and C14_table_of_linearizable_buckets: a table whose operations are routed by ANY bucket function to independent buckets is a linearizable map "
                       "as soon as every bucket's sub-history is; with the MichaelList machine of C13 this covers MichaelHashSet over MichaelList at the level of histories (the product machine itself is not written); "
-                      "FeldmanHashSet (HP): Lean machine (Algo/Feldman: traverse with spin on a converting slot, the insert / erase / update CASes, the four expand_slot steps) proved linearizable to Spec.map for all schedules under PathHyp (all hash paths of one length and injective: what C28 proves of the real splitter); "
+                      "FeldmanHashSet (HP): Lean machine (Algo/Feldman: traverse with spin on a converting slot, the insert / erase / update CASes, the four expand_slot steps) proved linearizable to Spec.map for all schedules under PathHyp (all hash paths of one length and injective: what C28 proves of the real splitter); PathHyp is PROVED for every configuration the harness replays (cfgH hb ab shift with hb + ab*((64-hb)/ab) = 64: C14_feldman_harness_hyp_all, C14_feldman_linearizable_harness; the model's path is the code's `key << shift` on keys with key*2^shift < 2^64 and an injective extension elsewhere, where that hash functor would violate the container's own perfect-hash precondition); "
                       "an expansion changes no lookup, the moved item is in the new array node before it is published (the two seeded Feldman changes break exactly this; with copyFirst = false the machine reaches a proved non-linearizable run); tied by trace conformance (hidden variant ifset_hp_named)",
                       "SplitList over LazyList / IterableList, the static bucket table, the aux-node free list beyond the first segment, Feldman maps / RCU forms: no separate model",
                       "the hashset client calls the *_with( key, less ) overloads in a quarter of the cases and gives split lists a colliding hash (key >> 1) in half of them"])
@@ -660,7 +660,7 @@ def c25(res, thorough):
                        "for 32/64-bit functions; cut-width sequences: random compositions of the source width, mixed cut/safe_cut sequences around and past the end, all compositions of 8- and 16-bit sources; "
                        "distinct = distinct input lines; every input is non-trivial (each exercises the full function)")
     steps.regenerate(res)
-    lean_step(res, ["CdsVerif.Props.C25", "CdsVerif.Props.C25Splitters"], thorough, extra_allowed=BV_AXIOMS("C25"))
+    lean_step(res, ["CdsVerif.Props.C25", "CdsVerif.Props.C25Splitters"], thorough)
     n = 20000 if thorough else 1500
     exe = steps.build_pure("bits", ["bits.cpp", "bits_generic.cpp"])
     steps.tie_D(res, exe, [str(res.seed), str(n)], ["eval"], purespec.compare_eval, "bits")
@@ -728,7 +728,7 @@ def c27(res, thorough):
     res.cov["rule"] = ("inputs: seeded random 64-bit hashes of varying magnitude, single bits and low-bit masks, x table-size logarithms 0,1,30..33,63 and i mod 64; "
                        "distinct = distinct (function, input) lines; all are non-trivial")
     steps.regenerate(res)
-    lean_step(res, "CdsVerif.Props.C27", thorough, extra_allowed=BV_AXIOMS("C27"))
+    lean_step(res, "CdsVerif.Props.C27", thorough)
     exe = steps.build_pure("splitorder", ["splitorder.cpp"], with_libcds=True)
     steps.tie_D(res, exe, [str(res.seed), str(20000 if thorough else 1500)], ["eval"], purespec.compare_eval, "splitorder")
 
@@ -747,14 +747,6 @@ def c28(res, thorough):
     steps.tie_D(res, exe, [str(res.seed), str(200 if thorough else 15)], ["eval"], purespec.compare_feldman, "feldman")
     exe2 = steps.build_pure("splitters", ["splitters.cpp"])
     steps.tie_D(res, exe2, ["splitters", str(res.seed), str(1000 if thorough else 80)], ["seqeval"], purespec.compare_seq, "splitters")
-
-
-def BV_AXIOMS(prop):
-    """Per-property allow-list of bv_decide axioms (named in the evidence)."""
-    p = os.path.join(vlib.VERIF, "tools", "bv_axioms.json")
-    if os.path.exists(p):
-        return json.load(open(p)).get(prop, [])
-    return []
 
 
 TABLE = {
